@@ -67,6 +67,17 @@ type FamilySpec struct {
 	Src        string
 }
 
+type ScenarioSpec struct {
+	Name   string
+	Labels []string
+	Ghosts []BoundVar
+	Assume *Node
+	Binds  map[string]*Node
+	Inline []string
+	Recv   string // "" | "new" (receiver = result of the constructor New<Type>()) | "nil"
+	Src    string
+}
+
 type LoopSpec struct {
 	Index      string
 	Invariants []*Clause
@@ -86,6 +97,7 @@ type Contract struct {
 	HasMod    bool
 	Splits    []*SplitSpec
 	Families  []*FamilySpec
+	Scenarios []*ScenarioSpec
 	SplitCalls []*SplitCall
 	Cuts      []*CutSpec
 	Grid      *[2]int
@@ -116,7 +128,7 @@ type Lemma struct {
 }
 
 var clauseKW = map[string]bool{"pred": true, "lemma": true, "func": true, "requires": true, "ensures": true, "modifies": true,
-	"split": true, "family": true, "splitcall": true, "cut": true, "grid": true, "inline": true, "trusted": true, "loop": true, "invariant": true}
+	"split": true, "family": true, "scenario": true, "splitcall": true, "cut": true, "grid": true, "inline": true, "trusted": true, "loop": true, "invariant": true}
 
 var reLabels = regexp.MustCompile(`^\[([A-Za-z0-9_,\- ]+)\]`)
 
@@ -308,6 +320,13 @@ func (u *Universe) parseContractFile(alias, fname, text string) error {
 					sp.Exprs = append(sp.Exprs, e)
 				}
 				cur.Splits = append(cur.Splits, sp)
+			case "scenario":
+				sc, err := parseScenario(rc.text)
+				if err != nil {
+					return fail(err)
+				}
+				sc.Src = where
+				cur.Scenarios = append(cur.Scenarios, sc)
 			case "family":
 				fam, err := parseFamily(rc.text)
 				if err != nil {
@@ -602,4 +621,56 @@ func parseFamily(text string) (*FamilySpec, error) {
 		}
 	}
 	return fam, nil
+}
+
+// scenario NAME[labels]: ghosts a int, b int; assume EXPR; bind p := EXPR; inline F, G
+func parseScenario(text string) (*ScenarioSpec, error) {
+	i := strings.Index(text, ":")
+	if i < 0 {
+		return nil, fmt.Errorf("scenario: missing ':'")
+	}
+	sc := &ScenarioSpec{Binds: map[string]*Node{}}
+	head := strings.TrimSpace(text[:i])
+	if j := strings.Index(head, "["); j >= 0 {
+		sc.Labels = splitList(strings.Trim(head[j:], "[]"))
+		head = head[:j]
+	}
+	sc.Name = head
+	for _, part := range strings.Split(text[i+1:], ";") {
+		part = strings.TrimSpace(part)
+		switch {
+		case strings.HasPrefix(part, "ghosts "):
+			for _, g := range splitList(part[7:]) {
+				fs := strings.Fields(g)
+				if len(fs) != 2 {
+					return nil, fmt.Errorf("scenario ghost %q", g)
+				}
+				sc.Ghosts = append(sc.Ghosts, BoundVar{fs[0], fs[1]})
+			}
+		case strings.HasPrefix(part, "assume "):
+			e, err := parseCExpr(part[7:])
+			if err != nil {
+				return nil, err
+			}
+			sc.Assume = e
+		case strings.HasPrefix(part, "bind "):
+			k := strings.Index(part, ":=")
+			if k < 0 {
+				return nil, fmt.Errorf("scenario bind: missing :=")
+			}
+			e, err := parseCExpr(part[k+2:])
+			if err != nil {
+				return nil, err
+			}
+			sc.Binds[strings.TrimSpace(part[5:k])] = e
+		case strings.HasPrefix(part, "inline "):
+			sc.Inline = splitList(part[7:])
+		case strings.HasPrefix(part, "recv "):
+			sc.Recv = strings.TrimSpace(part[5:])
+		case part == "":
+		default:
+			return nil, fmt.Errorf("scenario: unknown part %q", part)
+		}
+	}
+	return sc, nil
 }
